@@ -121,12 +121,16 @@ func (r *Run) discharge(fr *FuncResult) []*OblResult {
 		ok := false
 		if o.Cover {
 			// a cover is expected to be satisfiable; only a refutation (unsat) is a vacuity alarm
-			v = runSolver(Solvers[0], destring(o.Query(false)), r.Dir, fileTag(o.Name), 2*time.Second, r.Seed)
+			ct := 2 * time.Second
+			if os.Getenv("GOVC_WRITE_EXPECTED") != "" {
+				ct = 15 * time.Second // the reviewed list of unreachable return points is computed with a generous budget
+			}
+			v = runSolver(Solvers[0], destring(o.Query(false)), r.Dir, fileTag(o.Name), ct, r.Seed)
 			ok = v.Status != "unsat"
 			if ok && os.Getenv("GOVC_NOFULLCOVER") == "" {
 				// the same path under the whole background of the function (every fact any obligation
 				// pulls in): a background fact that kills a path would make the batch verdict vacuous
-				v2 := runSolver(Solvers[0], destring(FullCoverQuery(o, fr.Obligations)), r.Dir, fileTag(o.Name)+".full", 2*time.Second, r.Seed)
+				v2 := runSolver(Solvers[0], destring(FullCoverQuery(o, fr.Obligations)), r.Dir, fileTag(o.Name)+".full", ct, r.Seed)
 				if v2.Status == "unsat" {
 					v, ok = v2, false
 				}
